@@ -1,7 +1,7 @@
 """C06 -- transformations are lazy and actions evaluate each element exactly once.
 
 case = (src, stages, action)
-  src    = (0, xs, n)            -> Context().parallelize(xs, n)
+  src    = (0, xs, n)            -> Context().parallelize(xs, n)     (n = 0: parallelize(xs), the default)
            (1, parts, 0)         -> RDD([Partition(p, i) ...], ctx)   (arbitrary partitioning, empty partitions anywhere)
   stages = [(kind, code, flag), ...]   kind: 0 map, 1 filter, 2 flatMap, 3 sample, 4 persist, 5 mapPartitions[WithIndex]
                                        with a list-returning function (eager), 6 mapPartitionsWithIndex with a generator
@@ -55,7 +55,9 @@ RULE = ('cases (source, pipeline, action): source = parallelize(xs, n) with len 
         'action incl. reduce with every reducer; drop-all block: the REAL samplers at boundary fractions (0.0, 1e-300, -1.0 '
         'with and without replacement; 1.0 Bernoulli), filter(False), flatMap([]) below instrumented stages for every '
         'single-pass action; histories: 2-3 actions in sequence on ONE dataset object of an uncached lineage (same action '
-        'twice, two members of the stats family, an action after take/first/isEmpty), every per-action log judged; non-trivial = at least one logged user-function call and >= 1 '
+        'twice, two members of the stats family, an action after take/first/isEmpty), every per-action log judged; exhausted '
+        'block: first / isEmpty / take(n) on ONE partition (parallelize default and numSlices=1) and on several whose '
+        'pipeline yields nothing or fewer than n; non-trivial = at least one logged user-function call and >= 1 '
         'pipeline stage; distinct by canonical JSON')
 ASSUMPTIONS = [
     'local execution (default DummyPool): partitions are evaluated one after the other by the driver',
@@ -213,7 +215,7 @@ class Rec:
 def build(R, ctx, src, stages):
     """Define the lineage with the real API; returns the rdd. Nothing here may call a wrapped function."""
     if src[0] == 0:
-        rdd = ctx.parallelize([raw(c) for c in src[1]], src[2])
+        rdd = ctx.parallelize([raw(c) for c in src[1]], src[2] or None)     # n = 0 stands for the default (None)
     else:
         rdd = rdd_mod.RDD([Partition([raw(c) for c in p], i) for i, p in enumerate(src[1])], ctx)
 
@@ -390,7 +392,7 @@ def run_action(R, rdd, sa, action):
 def partitioning(src):
     if src[0] == 0:
         return [[enc(x) for x in p]
-                for p in pysparkling.Context().parallelize([raw(c) for c in src[1]], src[2]).glom().collect()]
+                for p in pysparkling.Context().parallelize([raw(c) for c in src[1]], src[2] or None).glom().collect()]
     return [list(p) for p in src[1]]
 
 
@@ -521,6 +523,27 @@ def judge(stages, parts, action, log, res):
     if len(set(keys)) != len(keys):
         dup = sorted(k for k in set(keys) if keys.count(k) > 1)
         return (f'{aname}:element-evaluated-twice', f'evaluated more than once: {dup[:4]}')
+    # never evaluate an element twice, stated per function: the index logged with a call is the number of EARLIER calls
+    # of that function in that partition, so the calls of an element-wise stage must be calls on distinct elements of
+    # its plain-list input, in order -- at most one call per element, in particular no more calls than elements (a
+    # partition that is computed a second time, e.g. when the pipeline yields nothing, shows up here);
+    # a partition-level function is called at most once per partition
+    for s in range(0, nst + 1):
+        k = MAP if s == 0 else stages[s - 1][0]
+        name = KIND_NAMES[k] if s else 'source'
+        if k in ELEMENTWISE:
+            for p, xs in enumerate(inputs[s]):
+                calls = [(j, v) for (st, pp, j, v) in log if st == s and pp == p]
+                if len(calls) > len(xs) or any(j >= len(xs) or xs[j] != v for j, v in calls):
+                    return (f'{aname}:{name}:element-evaluated-twice',
+                            f'stage {s} partition {p}: {len(calls)} calls {calls[:6]} on the {len(xs)} elements {xs[:6]}')
+        elif k in (EAGER, GENSUM):
+            per = {}
+            for e in log:
+                if e[0] == s:
+                    per[_event_partition(e)] = per.get(_event_partition(e), 0) + 1
+            if any(c > 1 for c in per.values()) or len([e for e in log if e[0] == s]) > len(parts):
+                return (f'{aname}:{name}:partition-evaluated-twice', f'stage {s}: calls per partition {per}')
     if n == 0:
         if log:
             return (f'{aname}:zero-evaluates', f'take(0) logged {log[:3]}')
@@ -598,7 +621,7 @@ def rand_src(rng, maxlen=8):
     L = rng.choice([0, 1, 2, 3, 4, 5, 6, maxlen])
     xs = [rand_value(rng) for _ in range(L)]
     if rng.random() < 0.6:
-        return (0, xs, rng.choice([1, 2, 2, 3, 3, 4, 5, 6, L + 2]))
+        return (0, xs, rng.choice([0, 1, 2, 2, 3, 3, 4, 5, 6, L + 2]))
     parts, i = [], 0
     for _ in range(rng.randint(1, 5)):
         m = rng.choice([0, 0, 1, 2, 3])
@@ -635,7 +658,7 @@ def out_len(src, stages):
 
 def _par(xs, n):
     # only used to choose which cases to generate (never to judge)
-    if n is None or n <= 1:
+    if n is None or n <= 1:     # incl. n = 0 = default
         return [list(xs)]
     L, out, i = len(xs), [], 0
     for k in range(n):
@@ -781,6 +804,16 @@ def generate(rng, tier):
         keep = [c for c in drop if c[2][0] == A_COLLECT and c[0][0] == 0 and c[0][2] == 2 and len(c[1]) == 2]
         drop = keep + rng.sample(drop, 500)
     cases.extend(drop)
+    # exhausted pipelines on ONE partition (parallelize default and numSlices=1) and on several: the pipeline yields
+    # nothing, or fewer than n; first / take(n) / isEmpty must still call every function at most once per element
+    for src in [(0, [], 0), (0, [], 1), (0, [3, 0, 4], 0), (0, [3, 0, 4], 1), (0, [5], 0), (1, [[1, 2]], 0),
+                (1, [[]], 0), (0, [3, 0, 4], 2), (1, [[], [1]], 0)]:
+        for up in ([], [(MAP, 0, 0)], [(FLATMAP, 0, 0)], [(EAGER, 1, 1)], [(MAP, 5, 0), (CACHE, 0, 0)]):
+            for d in ([], [(FILTER, 3, 0)], [(FLATMAP, 2, 0)], [(SAMPLE, 0, 0)], [(SAMPLE, 0, 2)], [(FILTER, 6, 0), (FILTER, 5, 0)]):
+                pipe = fix_stages(src, list(up) + list(d))
+                for act in [(A_FIRST, 0, 0, 0), (A_ISEMPTY, 0, 0, 0)] + \
+                        [(A_TAKE, n, 0, 0) for n in range(0, min(out_len(src, pipe), 3) + 2)]:
+                    cases.append((src, pipe, act))
     # histories: several actions on ONE dataset object (uncached lineages)
     n_hist = 300 if quick else 6000
     while n_hist > 0:
